@@ -705,11 +705,29 @@ func planC05(prop string, seed uint64, tier string, idx int) *Plan {
 		g.p.Profile = "gc safety (natural ticks)"
 		k.GCFreqMs = int64(g.r.pick(20, 50, 1000, 60000))
 	}
+	slowUp := natural && idx%6 == 2
+	if slowUp {
+		g.p.Profile = "gc safety (natural ticks), uploads that take longer than the grace period"
+		k.GCFreqMs = int64(g.r.pick(200, 1000, 5000))
+		k.GCGraceMs = k.GCFreqMs * int64(g.r.pick(2, 5, 12)) // (a grace period of thousands of ticks would not fit a run)
+		g.storeKnob("mem", "mem", "dir")
+	}
 	images, indexes, arts := g.gcGraph()
 	extra := g.newBlob(g.r.between(1, 200))
+	if slowUp {
+		extra = g.newBlob(g.r.between(20, 200))
+	}
 	n := g.scale(g.r.between(8, 24))
 	for i := 0; i < n; i++ {
 		repo := g.r.intn(g.nrepos())
+		if slowUp && (i == n/4 || i == 3*n/4) {
+			gr, sz := k.grace().Milliseconds(), g.p.Objs[extra].Size
+			// (Ms is the pause between two pieces of the body: four or five pieces, none of them a grace period apart)
+			g.add(Op{K: "blob", Mode: "chunk", Repo: repo, Obj: extra, Sess: g.nextSess(), Chunks: []int{sz}, B: max(1, sz/4), Ms: gr * int64(g.r.pick(4, 6, 8)) / 10})
+			g.markBlob(repo, extra)
+			g.add(Op{K: "sleep", Ms: min(gr/2, 2*k.freq().Milliseconds()+10)})
+			g.add(Op{K: "retained"})
+		}
 		switch g.r.intn(10) {
 		case 0:
 			if natural {
@@ -727,6 +745,14 @@ func planC05(prop string, seed uint64, tier string, idx int) *Plan {
 		case 2:
 			if k.Store != "mem" && g.r.chance(30) {
 				g.add(Op{K: "restart"})
+				g.add(Op{K: "retained"})
+			} else if gr := k.grace().Milliseconds(); natural && gr > 0 && gr <= 60000 && g.r.chance(50) {
+				// an upload that takes longer than the grace period (its pieces keep the session alive): the blob is as old as
+				// its completion, not as its session
+				sz := g.p.Objs[extra].Size
+				g.add(Op{K: "blob", Mode: "chunk", Repo: repo, Obj: extra, Sess: g.nextSess(), Chunks: []int{sz}, B: max(1, sz/4), Ms: gr * int64(g.r.pick(4, 6, 8)) / 10})
+				g.markBlob(repo, extra)
+				g.add(Op{K: "sleep", Ms: min(gr/2, 2*k.freq().Milliseconds()+10)})
 				g.add(Op{K: "retained"})
 			}
 		default:
@@ -766,6 +792,9 @@ func planC05(prop string, seed uint64, tier string, idx int) *Plan {
 		// stalled handlers and collection passes (fault): a goroutine stops for seconds at some scheduling point, holding
 		// whatever it holds, while the ticker goes on
 		p.Strat.StallPer, p.Strat.StallMs, p.Strat.StallMax = g.r.pick(5, 15, 40), g.r.pick(700, 2500, 10000, 70000), g.r.pick(1, 2, 4)
+		if f := k.freq().Milliseconds(); f > 0 && int64(p.Strat.StallMs) > 200*f {
+			p.Strat.StallMs = int(200 * f) // (a stall of thousands of ticks would not fit a run)
+		}
 		p.Profile += " + stalled goroutines"
 	}
 	return p
